@@ -174,6 +174,23 @@ func (g *Gen) stmt(o *out, d int) {
 func (g *Gen) exprDepth() int { return g.n(0, 3, "ed") }
 
 func (g *Gen) declStmt(o *out, d int) {
+	// a variable of main with the name and the type of a package-level variable:
+	// main works on its own variable from there on, the functions declared
+	// before keep reading the package-level one
+	if g.on("shadow-global") && g.inFunc == nil && g.inClosure == 0 && len(g.scopes) == 1 && len(g.globals) > 0 && g.coin(8, "shglobal") {
+		gv := g.globals[g.n(0, len(g.globals)-1, "shg")]
+		if !g.shadowedGlobals[gv.Name] {
+			if g.shadowedGlobals == nil {
+				g.shadowedGlobals = map[string]bool{}
+			}
+			g.shadowedGlobals[gv.Name] = true
+			e := g.expr(gv.T, g.exprDepth())
+			o.line("%s := %s", gv.Name, g.typedIfConst(gv.T, e))
+			g.declare(&Var{Name: gv.Name, T: gv.T})
+			g.use("shadow-global")
+			return
+		}
+	}
 	t := g.anyType(2, "dt")
 	name := g.name("v")
 	// shadowing: reuse a visible name of an outer scope
@@ -653,24 +670,55 @@ func (g *Gen) rangeStmt(o *out, d int) {
 		g.use("range-string")
 	default:
 		i, e := g.name("i"), g.name("e")
-		form := g.pick("rform", 5, 3, 2)
+		wAssign := 0
+		if g.on("range-assign") {
+			wAssign = 2
+		}
+		form := g.pick("rform", 5, 3, 2, wAssign)
 		bound := 5
 		if c.t.Kind == KArray {
 			bound = c.t.N
 		}
+		code := c.code
+		if c.t.Kind == KArray && g.on("range-array-pointer") && c.code == c.root.Name && g.coin(30, "rptr") {
+			// range over a pointer to the array: no copy of the array is made
+			code = "&" + c.code
+			g.use("range-array-pointer")
+		}
 		switch form {
+		case 3:
+			// assignment form: the iteration values are assigned to variables
+			// declared before the loop, which keep the last ones afterwards
+			withElem := refFree(c.t.Elem) && g.coin(60, "rae")
+			o.line("var %s int", i)
+			g.declareOuter(&Var{Name: i, T: g.U.Int, RO: true})
+			hdr := fmt.Sprintf("for %s = range %s", i, code)
+			if withElem {
+				o.line("var %s %s", e, c.t.Elem.Name)
+				g.declareOuter(&Var{Name: e, T: c.t.Elem, LoopVar: true})
+				hdr = fmt.Sprintf("for %s, %s = range %s", i, e, code)
+				if g.coin(25, "rablank") {
+					hdr = fmt.Sprintf("for _, %s = range %s", e, code)
+				}
+			}
+			g.withLoop(o, hdr, bound, d, func(b *out) { b.line("_ = %s", i) }, true)
+			o.line("fmt.Println(\"ra\", %s)", i)
+			if withElem && c.t.Elem.Printable() {
+				o.line("fmt.Println(\"rae\", %s)", e)
+			}
+			g.use("range-assign")
 		case 0:
 			g.declare(&Var{Name: i, T: g.U.Int, RO: true})
 			g.declare(&Var{Name: e, T: c.t.Elem, LoopVar: true})
-			g.withLoop(o, fmt.Sprintf("for %s, %s := range %s", i, e, c.code), bound, d, func(b *out) {
+			g.withLoop(o, fmt.Sprintf("for %s, %s := range %s", i, e, code), bound, d, func(b *out) {
 				b.line("_, _ = %s, %s", i, e)
 			}, true)
 		case 1:
 			g.declare(&Var{Name: i, T: g.U.Int, RO: true})
-			g.withLoop(o, fmt.Sprintf("for %s := range %s", i, c.code), bound, d, func(b *out) { b.line("_ = %s", i) }, true)
+			g.withLoop(o, fmt.Sprintf("for %s := range %s", i, code), bound, d, func(b *out) { b.line("_ = %s", i) }, true)
 		default:
 			g.declare(&Var{Name: e, T: c.t.Elem, LoopVar: true})
-			g.withLoop(o, fmt.Sprintf("for _, %s := range %s", e, c.code), bound, d, func(b *out) {
+			g.withLoop(o, fmt.Sprintf("for _, %s := range %s", e, code), bound, d, func(b *out) {
 				b.line("_ = %s", e)
 			}, true)
 		}
@@ -714,6 +762,11 @@ func (g *Gen) switchStmt(o *out, d int) {
 		tag := g.nonConst(tagT, 2)
 		if initVar != "" {
 			tagT, tag = initT, initVar
+			if g.on("switch-init-tag-expr") && g.coin(50, "swtagexpr") {
+				// the tag is an expression over the variable of the init statement
+				tag = fmt.Sprintf("%s + %s", initVar, g.intLit(initT, "swtagk"))
+				g.use("switch-init-tag-expr")
+			}
 		}
 		o.line("switch %s%s {", init, tag)
 		g.use("switch-tag")
@@ -727,6 +780,24 @@ func (g *Gen) switchStmt(o *out, d int) {
 			c := g.nonConstBool(2)
 			if i == 0 && initVar != "" {
 				c = fmt.Sprintf("%s > %s", initVar, g.intLit(initT, "swic"))
+			}
+			if g.on("switch-tagless-list") && g.coin(30, "swtl") {
+				// a list of expressions, some of them constant
+				more := g.nonConstBool(1)
+				switch g.pick("swtlk", 5, 2, 2) {
+				case 1:
+					more = []string{"1 > 2", "\"a\" == \"b\"", "2 < 3 && false"}[g.n(0, 2, "swtlc")]
+					g.use("switch-tagless-const")
+				case 2:
+					more = []string{"2 > 1", "\"a\" != \"b\""}[g.n(0, 1, "swtlc")]
+					g.use("switch-tagless-const")
+				}
+				if g.coin(50, "swtlfirst") {
+					c = more + ", " + c
+				} else {
+					c = c + ", " + more
+				}
+				g.use("switch-tagless-list")
 			}
 			heads = append(heads, "case "+c+":")
 			continue
@@ -943,7 +1014,26 @@ func (g *Gen) opAssignStmtNoDecl(o *out, d int) {
 // closureStmt defines a closure variable and calls it (closures that write
 // captured variables are called in statement position only).
 func (g *Gen) closureStmt(o *out, d int) {
-	switch g.pick("clkind", 4, 3, 3) {
+	wCall := 0
+	if g.on("funclit-call-stmt") {
+		wCall = 2
+	}
+	switch g.pick("clkind", 4, 3, 3, wCall) {
+	case 3: // function literal called at once, as a statement of its own
+		pt := g.basicType("flp")
+		a := g.name("a")
+		o.line("func(%s %s) {", a, pt.Name)
+		g.push()
+		g.inClosure++
+		g.declare(&Var{Name: a, T: pt, RO: true})
+		if pt.Printable() {
+			o.line("\tfmt.Println(\"fl\", %s)", a)
+		}
+		o.raw(g.simpleStmts(o.ind+1, g.n(1, 2, "fln"), d-1))
+		g.inClosure--
+		g.pop()
+		o.line("}(%s)", g.expr(pt, 2))
+		g.use("funclit-call-stmt")
 	case 0: // pure closure stored in a variable, used in an expression later
 		pt, rt := g.basicType("clp"), g.basicType("clr")
 		ft := g.U.FuncOf([]*Type{pt}, []*Type{rt})
